@@ -50,7 +50,8 @@ func runReplay(c *Ctx, path string) {
 var genOps = map[string]string{"fold": "gen.ToRFC1459", "validnick": "gen.IsValidNick", "validuser": "gen.IsValidUser", "validchan": "gen.IsValidChannel",
 	"glob": "gen.Glob", "validtag": "gen.validTag", "validtagvalue": "gen.validTagValue", "tagget": "gen.Tags.Get", "ctcpenc": "gen.EncodeCTCPRaw",
 	"ctcpdec": "gen.DecodeCTCP", "parse": "gen.ParseEvent", "parsesource": "gen.ParseSource", "parsetags": "gen.ParseTags",
-	"bytes": "gen.Event.Bytes", "len": "gen.Event.Len", "tagsbytes": "gen.Tags.Bytes", "tagset": "gen.Tags.Set", "fmt": "gen.Fmt", "stripraw": "gen.StripRaw"}
+	"bytes": "gen.Event.Bytes", "len": "gen.Event.Len", "tagsbytes": "gen.Tags.Bytes", "tagset": "gen.Tags.Set", "fmt": "gen.Fmt", "stripraw": "gen.StripRaw",
+	"plain": "gen.SASLPlain.Encode", "external": "gen.SASLExternal.Encode", "chunks": "gen.handleSASL.chunks"}
 
 // genCheck compares the real function with its regenerated translation on the same input: this validates the translator
 // and its run-time model (the tie theorems then carry the model's properties over to what the code says now).
